@@ -25,7 +25,7 @@ KF_RET_OWED = "retract_outside_while_recovery_owed"
 EXCLUDABLE = [KF_OWED_MOVE, KF_RET_OWED]
 
 
-def scen(w, which="C04", K=4, firmware=0, kinds="r", roles=None):
+def scen(w, which="C04", K=4, firmware=0, kinds="r", roles=None, sequence=None):
     fw = bool(firmware)
     role_names = (roles.split(",") if roles else (ROLES_FW if fw else ROLES_E))
     pipe = pl.Pipe(w, False)
@@ -39,8 +39,9 @@ def scen(w, which="C04", K=4, firmware=0, kinds="r", roles=None):
     owed = False                 # oracle: a recovery was skipped inside a region and not yet made up
     max_depth_req = 0            # deepest retraction the file has requested so far
     fw_words = {}                # parameter words of the file's last G10 / G11
-    for k in range(K):
-        role = role_names[w.choose(len(role_names), "role")]
+    seq = sequence.split(",") if sequence else None
+    for k in range(len(seq) if seq else K):
+        role = seq[k] if seq else role_names[w.choose(len(role_names), "role")]
         w.cover("role-" + role)
         text = None
         if role in ("RET", "REC"):
@@ -102,8 +103,10 @@ def scen(w, which="C04", K=4, firmware=0, kinds="r", roles=None):
         # oracle bookkeeping of owed recoveries: a REC/FREC skipped while an episode is open
         if role in ("REC", "FREC", "FREC1"):
             owed = alg.or_(owed, rec.ep_after)
-        elif role == "PRINT" or role in ("RET", "FRET", "FRET1"):
-            owed = alg.and_(owed, rec.ep_after) if owed is not False else False
+        elif role in ("RET", "FRET", "FRET1"):
+            owed = False      # a retraction while a recovery is owed cancels it (inside); outside it is the known finding
+        elif role == "PRINT" and owed is not False:
+            owed = alg.and_(owed, alg.or_(rec.ep_before, rec.ep_after))
         if rec.excluding_after:
             w.cover("episode-open")
         if any(e != text for e in rec.emitted):
@@ -168,3 +171,147 @@ def scen(w, which="C04", K=4, firmware=0, kinds="r", roles=None):
                 oks.append(w.check(alg.implies(outside_now, alg.eq(P.e, V.e)) if False else True, "noop"))
         if any(o is False for o in oks):
             return
+
+
+# =====================================================================================================================
+# Inductive step for C04 / C05 (E-style retraction, absolute extrusion)
+#
+# Invariant over (filter F, file printer V, output printer P), with one symbolic cycle length a > 0:
+#   class  F.lastRetraction                          file      depth(V)  depth(P)
+#   0      None                                      not retr. 0         0
+#   1      amount a, recovery not skipped            retracted a         a
+#   2      amount a, recovery skipped (owed)         not retr. 0         a
+# in each class either outside an episode (then P's E register equals V's) or inside one (P's E register arbitrary);
+# tracked frame == V's frame as in harness/inductive.py; deepest retraction requested so far is a (classes 1, 2) or
+# 0 / a (class 0).
+IND_ROLES = ["RET", "REC", "PRINT", "TRAVEL", "TRAVELE", "ZHOP", "SETE", "G20", "G21", "TRAVELX"]
+
+
+def ind_step(w, which="C04", start="outside", kinds="r"):
+    pipe = pl.Pipe(w, False)
+    kind = "rect" if (kinds == "r" or (kinds == "rd" and w.choose(2, "rkind") == 0)) else "disc"
+    pipe.add_region(pl.fresh_region(w, kind, "r0"))
+    if start == "inside":
+        pipe.havoc_excluding()
+    else:
+        pipe.havoc_not_excluding()
+    V, P, st = pipe.V, pipe.P, pipe.state
+    a = w.real("a")
+    w.assume(a > 0)
+    cls = w.choose(3, "ind-class")
+    w.cover("class-%d-%s" % (cls, start))
+    RS = w.env.RetractionState
+    if cls == 0:
+        st.lastRetraction = None
+    else:
+        fr = w.real("ind_ret_feed2")
+        w.assume(fr >= 0)
+        lr = RS(originalCommand="G1 E-1", firmwareRetract=False, extrusionAmount=a, feedRate=fr)
+        lr.recoverExcluded = (cls == 2)
+        lr.allowCombine = False if cls == 2 else w.flag("ind-allow-combine")
+        st.lastRetraction = lr
+    file_retracted = (cls == 1)
+    owed = (cls == 2)
+    ever = True if cls != 0 else w.flag("ind-retracted-before")
+    max_depth_req = a if ever else 0
+    vf, pf = w.real("ind_V_fil"), w.real("ind_P_fil")
+    V.fil, V.hw = vf, vf + (a if cls == 1 else 0)
+    P.fil, P.hw = pf, pf + (a if cls != 0 else 0)
+    if start != "inside":
+        P.e = V.e
+    role = IND_ROLES[w.choose(len(IND_ROLES), "role")]
+    w.cover("role-" + role)
+    if role in ("RET", "REC"):
+        if (role == "RET") == file_retracted:
+            pl.skip(w, "unmatched cycle")
+        e = w.real("c0_E")
+        text = "G1 E" + w.key(e)
+        w.assume(alg.eq(e * V.u, (V.e - a) if role == "RET" else (V.e + a)))
+    elif role == "PRINT":
+        if file_retracted:
+            pl.skip(w, "printing move while the file is retracted")
+        x, y, e = w.real("c0_X"), w.real("c0_Y"), w.real("c0_E")
+        text = "G1 X%s Y%s E%s" % (w.key(x), w.key(y), w.key(e))
+        w.assume(e * V.u > V.e)
+    elif role == "TRAVEL":
+        text = "G1 X%s Y%s" % (w.key(w.real("c0_X")), w.key(w.real("c0_Y")))
+    elif role == "TRAVELE":
+        x, y, e = w.real("c0_X"), w.real("c0_Y"), w.real("c0_E")
+        text = "G1 X%s Y%s E%s" % (w.key(x), w.key(y), w.key(e))
+        w.assume(alg.eq(e * V.u, V.e))
+    elif role == "TRAVELX":
+        text = "G0 X%s" % w.key(w.real("c0_X"))
+    elif role == "ZHOP":
+        text = "G1 Z%s" % w.key(w.real("c0_Z"))
+    elif role == "SETE":
+        text = "G92 E%s" % w.key(w.real("c0_E"))
+    else:
+        text = role
+    rec = pipe.begin(text)
+    if KF_OWED_MOVE in w.excluded and role == "PRINT" and owed:
+        w.assume(rec.dest_inside)
+    if KF_RET_OWED in w.excluded and role == "RET" and owed and start != "inside":
+        pl.skip(w, KF_RET_OWED)
+    if rec.is_move and not V.abs_xyz and "exit_while_xyz_relative" in w.excluded:
+        w.assume(alg.not_(alg.and_(rec.ep_before, alg.not_(rec.dest_inside))))
+    vb = rec.v_before
+    depth_v_before = vb["hw"] - vb["fil"]
+    rec = pipe.finish()
+    if rec.raised is not None:
+        w.fail("handler-raised", "%s raised %r" % (text, rec.raised))
+        return
+    desc = "inductive step from %s an episode, class %d, [%s] %r -> %r" % (start, cls, role, text, rec.emitted)
+    depth_v = V.depth()
+    if role == "RET":
+        file_retracted = True
+        max_depth_req = a
+        owed = False
+    elif role == "REC":
+        file_retracted = False
+        owed = alg.or_(owed, rec.ep_after)
+    elif role == "PRINT" and owed is not False:
+        # a printing move forwarded outside a region makes up the owed recovery first; a move that enters, stays in or
+        # leaves a region does not
+        owed = alg.and_(owed, alg.or_(rec.ep_before, rec.ep_after))
+    outside_now = alg.not_(rec.ep_after)
+    if which == "C04":
+        if not w.check(alg.implies(outside_now, alg.eq(P.e, V.e)), "extruder-coordinate-in-sync", desc):
+            return
+        if role == "PRINT":
+            own = [m for m in rec.motions if m.text == text]
+            if own and not w.check(alg.implies(outside_now, alg.eq(own[0].dfil, rec.vm.dfil)),
+                                   "forwarded-move-pushes-file-amount", desc):
+                return
+        still = [alg.le(m.dfil, 0) for m in rec.motions]
+        if not w.check(alg.implies(rec.ep_after, alg.and_(*still) if still else True),
+                       "suppressed-moves-push-nothing", desc):
+            return
+    else:
+        fil, hw = rec.p_before["fil"], rec.p_before["hw"]
+        conds_deeper, conds_equal = [], []
+        for m in rec.motions:
+            if m.has_xyz:
+                conds_equal.append(alg.implies(alg.gt(m.dfil, 0), alg.eq(hw - fil, depth_v_before)))
+            fil = fil + m.dfil
+            hw = alg.max_(hw, fil)
+            conds_deeper.append(alg.le(hw - fil, max_depth_req))
+        if not w.check(alg.and_(*conds_deeper) if conds_deeper else True, "never-deeper-than-requested", desc):
+            return
+        if not w.check(alg.ge(P.depth(), depth_v), "never-shallower-than-file", desc):
+            return
+        if not w.check(alg.and_(*conds_equal) if conds_equal else True, "depth-equal-when-printing-move-extrudes", desc):
+            return
+    # ---- invariant re-established (class membership of the post-state)
+    lr = st.lastRetraction
+    exp_v = a if file_retracted else 0
+    exp_p = alg.ite(alg.or_(file_retracted, owed), a, 0)
+    conds = [pipe.tracked_equals_file(include_e=True), alg.eq(depth_v, exp_v), alg.eq(P.depth(), exp_p),
+             alg.implies(outside_now, alg.eq(P.e, V.e)), alg.iff(rec.ep_after, rec.excluding_after)]
+    if lr is None:
+        conds.append(alg.and_(alg.not_(owed), not file_retracted))
+    else:
+        conds.append(alg.eq(lr.extrusionAmount, a))
+        conds.append(alg.iff(lr.recoverExcluded, owed))
+        conds.append(alg.or_(file_retracted, owed))
+        conds.append(alg.implies(owed, lr.allowCombine is False))
+    w.check(alg.and_(*conds), "invariant-re-established", desc)
